@@ -61,7 +61,7 @@ impl Prop for C05 {
         let opts = ConvOpts { max_cmds: 6, max_rows: 4, sentinels: g.coin(), default_init_sometimes: false, quit_sometimes: true };
         let mut conv = gen_conv(g, &opts);
         // one long response sometimes; rarely one whose rows are longer than a wire packet
-        let big_layout = g.chance(1, 1500);
+        let big_layout = g.chance(1, 1500) && !g.fuzzing;
         if big_layout || g.chance(1, 4) {
             let mut idx = Vec::new();
             let mut ai = 0;
